@@ -26,6 +26,7 @@ SEQ = 'rogw/tranp/lang/sequence.py'
 
 def run(rep: Report, tier: str) -> None:
 	idx = SourceIndex()
+	rule_state(rep, idx)
 	ser, sch, db, seq = idx.mod(SER), idx.mod(SCHEMA), idx.mod(DB), idx.mod(SEQ)
 	rep.consulted(SER, SCHEMA, DB, SEQ)
 	c = ser.cls('ReflectionSerializer')
@@ -96,9 +97,14 @@ def run(rep: Report, tier: str) -> None:
 	sfi = FI(s)
 	sparam = s.params()[1] if len(s.params()) > 1 else 'symbol'
 	wdicts = {}
+	from vlib.match import inline_simple_calls
 	for dct in [n for n in nodes(sfi, ast.Dict)]:
 		cv = next((const_str(v) for k, v in zip(dct.keys, dct.values) if const_str(k) == 'class'), None)
 		if cv:
+			# values written through a one-line private helper (`self._node_dsn(symbol.node)`) stand for the helper's expression
+			lineno = dct.lineno
+			dct = inline_simple_calls(s, dct)
+			dct.lineno = lineno
 			wdicts[cv] = dct
 
 	def value_keys(e: ast.AST, depth: int = 0) -> set[str]:
@@ -139,11 +145,34 @@ def run(rep: Report, tier: str) -> None:
 		else:
 			rw.check(value_keys(inst[0].args[1]) == {'types'}, 'read:Symbol.instantiate', (SER, inst[0].lineno), f'Symbol.instantiate must be called with the class node restored from data[\'types\']: `{unparse(inst[0].args[1])[:120]}`')
 	pm_d = parent_map(dfi)
+	# reader sites in deserialize and in the private helpers it calls (their parameters replaced by the call arguments): the key's value may be handed to
+	# a helper that parses it (`self._node_by(data['types'])` -> `ModuleDSN.parsed(dsn)` inside). A helper is inlined once (for the first call site met),
+	# so a key that is only handed to a helper inherits the verdict of the key the helper was inlined for.
+	sites_of: dict[str, list[bool]] = {k: [] for k in ('types', 'node', 'decl')}
+	handed_to: dict[str, set[str]] = {k: set() for k in sites_of}
+	for body_, _chain in inlined_bodies2(d, 2, full=True):
+		pm_b = parent_map(body_)
+		for n in nodes(body_, ast.Subscript):
+			k = const_str(n.slice)
+			if unparse(n.value) != dparam or k not in sites_of:
+				continue
+			par = pm_b.get(id(n))
+			is_parsed = isinstance(par, ast.Call) and attr_chain(par.func) == 'ModuleDSN.parsed'
+			if isinstance(par, ast.Call) and not is_parsed and isinstance(par.func, ast.Attribute) and isinstance(par.func.value, ast.Name) and par.func.value.id in ('self', 'cls'):
+				handed_to[k].add(par.func.attr)
+				continue  # judged where the helper uses it
+			if isinstance(par, ast.Compare) or (isinstance(par, ast.Subscript) and par.slice is n):
+				continue  # used as a key / membership probe, not decoded (a memo keyed by the row text is C04's instance-state inventory)
+			sites_of[k].append(is_parsed)
 	for k in ('types', 'node', 'decl'):
 		wv = [v for dct in wdicts.values() for kk, v in zip(dct.keys, dct.values) if const_str(kk) == k]
 		w_ok = bool(wv) and all(isinstance(v, ast.Call) and attr_chain(v.func) == 'ModuleDSN.full_joined' for v in wv)
-		rsites = [n for n in nodes(dfi, ast.Subscript) if unparse(n.value) == dparam and const_str(n.slice) == k]
-		r_ok = bool(rsites) and all(isinstance(pm_d.get(id(n)), ast.Call) and attr_chain(pm_d[id(n)].func) == 'ModuleDSN.parsed' for n in rsites)
+		flags = list(sites_of[k])
+		if not flags and handed_to[k]:
+			for k2 in sites_of:
+				if k2 != k and handed_to[k2] & handed_to[k] and sites_of[k2]:
+					flags = list(sites_of[k2])
+		r_ok = bool(flags) and all(flags)
 		rw.check(w_ok and r_ok, f'path-codec:{k}', s.where, f"key {k!r}: writer uses ModuleDSN.full_joined: {w_ok}, reader uses ModuleDSN.parsed: {r_ok}")
 	lookups = [n for fn in closure(d) for n in nodes(fn, ast.Call) if isinstance(n.func, ast.Attribute) and n.func.attr == 'whole_by' and isinstance(n.func.value, ast.Call) and unparse(n.func.value.func).endswith('_entrypoints.load')]
 	if lookups:
@@ -250,3 +279,24 @@ def run(rep: Report, tier: str) -> None:
 	completes = bool(stores) and any(c_.args and unparse(c_.args[0]) == stores[0][1] for c_ in calls(stores[0][0], 'ModuleDSN.parsed')) and has_call(stores[0][0], 'self.on_complete')
 	rd.check(completes, 'import-completes', ij.where, 'import_json no longer marks the module of each key as completed')
 	rd.check(has_call(X(si), 'ModuleDSN.parsed'), 'setitem-parser', si.where, '__setitem__ no longer files the key with ModuleDSN.parsed (import_json derives the module path with the same parser)')
+
+
+def rule_state(rep: Report, idx: SourceIndex) -> None:
+	"""import restores every symbol onto the CURRENT syntax trees: nodes are looked up through the entrypoints each time. A serializer (or persistor) that
+	remembers resolved nodes / symbols across calls hands out nodes of a tree that was unloaded and re-parsed since (same path, other source), so the
+	re-imported symbols keep the old declaration and type description. The inventory of remembered state is C04's; the entries of the export/import
+	classes are obligations here as well."""
+	from checks import c04
+	r = rep.rule('C14/codec-keeps-no-state', 'ReflectionSerializer, SymbolDBPersistor and SymbolDB hold no container / memo besides the reviewed ones (shared with C04/instance-state-inventory)', floor=2)
+	scratch = Report('C04', rep.tier)
+	c04.rule_g(scratch, idx)
+	n_ = 0
+	for rule in scratch.rules:
+		for o in rule.obligations:
+			if not o.key.startswith(('ReflectionSerializer.', 'SymbolDBPersistor.', 'SymbolDB.')):
+				continue
+			n_ += 1
+			if o.status == 'violated':
+				r.violate(o.key, (o.file, o.line), o.message, o.fragment)
+			else:
+				r.ok(o.key, (o.file, o.line))
